@@ -2053,8 +2053,13 @@ class ImageIterator:
             cached if isinstance(cached, bool) else image.n_frames <= cached
         )
         self._loop_no = None
+
+        def animate(img, *args):
+            self._img = img  # For cleanup, even if iteration is never started
+            return self._animate(img, *args)
+
         self._animator = image._renderer(
-            self._animate, alpha, fmt, style_args, check_size=False
+            animate, alpha, fmt, style_args, check_size=False
         )
 
     def __del__(self) -> None:
